@@ -25,7 +25,7 @@ proof fn canary__must_fail() ensures false {}
 
 SAFETY_PATTERNS = [
     'possible arithmetic underflow/overflow', 'possible division by zero', 'possible bit shift underflow/overflow',
-    'precondition not satisfied', 'decreases not satisfied', 'loop must have a decreases', 'unreachable', 'panic',
+    'precondition not satisfied', 'precondition not met', 'decreases not satisfied', 'loop must have a decreases', 'unreachable', 'panic',
     'index out of bounds', 'unwrap',
 ]
 
@@ -70,7 +70,7 @@ def classify(msg):
     m = msg.lower()
     if 'postcondition not satisfied' in m:
         return 'postcondition'
-    if 'precondition not satisfied' in m:
+    if 'precondition not satisfied' in m or 'precondition not met' in m:
         return 'precondition'
     if 'assertion failed' in m:
         return 'assert'
